@@ -192,6 +192,12 @@ def ocaml_build():
     return drv
 
 
+class HarnessCrash(CheckError):
+    def __init__(self, msg, completed, returncode):
+        super().__init__(msg)
+        self.completed, self.returncode = completed, returncode
+
+
 def run_harness(binpath, args, timeout=3000, count_key="--count", skip_key="--skip"):
     """Runs a harness binary that prints JSON lines; restarts after a hung case."""
     recs, hangs = [], []
@@ -231,6 +237,9 @@ def run_harness(binpath, args, timeout=3000, count_key="--count", skip_key="--sk
             if done >= total:
                 break
             continue
+        if p.returncode < 0:
+            raise HarnessCrash(f"harness {os.path.basename(binpath)} was killed by signal {-p.returncode} after {len(recs)} "
+                               f"records: {p.stderr[-1500:]}", len(recs), p.returncode)
         if p.returncode != 0:
             raise CheckError(f"harness {os.path.basename(binpath)} exited {p.returncode}: {p.stderr[-2000:]}")
         break
@@ -490,6 +499,14 @@ TRUSTED_BASE = [
 ]
 
 
+def coqchk(prop, timeout=1800):
+    """independent re-check of the compiled property file and everything it depends on"""
+    p = sh(["coqchk", "-silent", "-o", "-Q", ".", "Resolvo", f"Resolvo.Props.{prop}"], cwd=COQ, timeout=timeout, check=False)
+    m = re.search(r"\* Axioms:(.*?)\n\s*\n", p.stdout + "\n\n", re.S)
+    axioms = " ".join(m.group(1).split()) if m else "?"
+    return p.returncode == 0 and axioms == "<none>", axioms
+
+
 def proof_gate(res, prop, theorems, targets=None):
     """Steps 1 of the protocol: forbidden-word scan, build, assumptions."""
     bad = scan_forbidden()
@@ -503,6 +520,10 @@ def proof_gate(res, prop, theorems, targets=None):
             res.obligation(True)
         for f in fails:
             res.obligation(False, f)
+        if res.tier == "thorough" and not TAG:
+            okc, axioms = coqchk(prop)
+            res.extra["coqchk_axioms"] = axioms
+            res.obligation(okc, None if okc else f"coqchk does not accept Props/{prop}.vo or reports axioms: {axioms}")
     return ok
 
 
